@@ -661,6 +661,47 @@ def rule_contains(chk, prog):
         raise AnalysisBroken("no call site of adjustContainsWithAdd")
 
 
+def rule_sweep_set_total(chk, prog):
+    """The Lee sweep keeps its vertices in a std::set<PointPair>: two different vertices must never be equivalent, or one is dropped."""
+    from ..microai.interp import Interp, Obj, Oracle, Unsupported, AssertFail, default_obj
+    from fractions import Fraction
+    r = chk.rule("SWEEP-SET-TOTAL", "PointPair::operator< (the order of the vertex set swept by vertexSweep) interpreted on pairs with equal angle and "
+                 "equal distance: two pairs for DIFFERENT vertices (ids differing in the object id or only in the vertex number) are ordered one "
+                 "way or the other, never equivalent -- an equivalent pair is silently dropped by std::set::insert and that vertex (e.g. the "
+                 "end point of a second connector at the same position) gets no visibility edge from this sweep; equal ids are equivalent; "
+                 "different angle / distance decide before the ids", floor=5)
+    cands = [f for f in prog.all_functions() if f.q == "Avoid::PointPair::operator<" and f.body is not None]
+    if len(cands) != 1:
+        raise AnalysisBroken("Avoid::PointPair::operator< not found")
+    fn = cands[0]
+
+    def pp(angle, dist, obj, vn):
+        vid = default_obj(prog, "Avoid::VertID", {"objID": obj, "vn": vn, "props": 0})
+        vi = default_obj(prog, "Avoid::VertInf", {"id": vid})
+        return default_obj(prog, "Avoid::PointPair", {"vInf": vi, "angle": Fraction(angle), "distance": Fraction(dist)})
+    cases = [("same position, different object ids", pp(1, 5, 3, 1), pp(1, 5, 4, 1), "one"),
+             ("same position, same object, different vertex numbers", pp(1, 5, 3, 1), pp(1, 5, 3, 2), "one"),
+             ("same vertex id", pp(1, 5, 3, 1), pp(1, 5, 3, 1), "none"),
+             ("same angle, different distance", pp(1, 5, 9, 1), pp(1, 7, 3, 1), "first"),
+             ("different angle", pp(1, 9, 9, 1), pp(2, 5, 3, 1), "first")]
+    for name, a, b, want in cases:
+        it = Interp(prog, Oracle([]))
+        r.count()
+        try:
+            ab = bool(it.call(fn, a, None, None, arg_values=[b]))
+            ba = bool(it.call(fn, b, None, None, arg_values=[a]))
+        except Unsupported as e:
+            raise AnalysisBroken("PointPair::operator< outside the interpreter subset: %s" % e)
+        bad = None
+        if want == "one" and ab == ba:
+            bad = "a < b is %s and b < a is %s: %s" % (ab, ba, "the two vertices are equivalent and the set keeps only one of them" if not ab else "not a strict order")
+        elif want == "none" and (ab or ba):
+            bad = "a pair compares less than itself"
+        elif want == "first" and not (ab and not ba):
+            bad = "a < b is %s, b < a is %s; expected the first to come first" % (ab, ba)
+        (r.bad if bad else r.ok)(name, fn.where(), bad or "")
+
+
 def run(chk):
     prog = chk.load()
     chk.guard(rule_callers, chk, prog)
@@ -671,6 +712,9 @@ def run(chk):
     chk.guard(rule_endpoints, chk, prog)
     chk.guard(rule_contains, chk, prog)
     chk.guard(rule_sweep_border, chk, prog)
+    chk.guard(rule_sweep_set_total, chk, prog)
+    from .c16 import rule_shape_blocking
+    chk.guard(rule_shape_blocking, chk, prog, ("square",))      # which segments a convex obstacle blocks
     chk.guard(rule_free_side_lines, chk, prog)
     from .c10 import rule_limits_narrow
     chk.guard(rule_limits_narrow, chk, prog)
